@@ -80,6 +80,10 @@ def extract(config, repo=None, quiet=False):
     outdir = os.path.join(CACHE, 'facts', th, config)
     marker = os.path.join(outdir, '.complete')
     if os.path.exists(marker):
+        try:
+            os.utime(os.path.dirname(outdir), None)      # most-recently-used order for the pruning
+        except OSError:
+            pass
         return outdir
     os.makedirs(os.path.join(CACHE, 'locks'), exist_ok=True)
     with open(os.path.join(CACHE, 'locks', config + '.lock'), 'w') as lock:
@@ -126,14 +130,16 @@ def extract(config, repo=None, quiet=False):
 
 
 def _prune_cache(keep):
-    """Keep at most 4 tree hashes in the cache (most recent)."""
+    """Keep at most 12 tree hashes in the cache (most recently used), and never remove one used in the last 20 minutes:
+    another check may be reading it (several scratch trees are analysed side by side by the regression tools)."""
     base = os.path.join(CACHE, 'facts')
     try:
         ents = sorted((os.path.getmtime(os.path.join(base, d)), d) for d in os.listdir(base))
     except OSError:
         return
-    for _, d in ents[:-4]:
-        if d != keep:
+    now = time.time()
+    for mt, d in ents[:-12]:
+        if d != keep and now - mt > 1200:
             shutil.rmtree(os.path.join(base, d), ignore_errors=True)
 
 
@@ -160,6 +166,7 @@ class Facts:
         self.bodies = {}        # path -> body
         self.by_hash = {}       # def-path hash -> body
         self.const_bodies = {}  # generic associated constants: path -> MIR body
+        self.promoted = {}      # `<fn path>::promoted[i]` -> MIR body that builds the promoted constant
         self.extern_by_hash = {}  # small core combinators (Option::map, checked_sub, mem::swap ...): def-path hash -> body
         self.types = {}
         self.impls = []
@@ -178,6 +185,9 @@ class Facts:
             for b in d.get('const_bodies', []):
                 b['crate'] = name
                 self.const_bodies[b['path']] = b
+            for b in d.get('promoted_bodies', []):
+                b['crate'] = name
+                self.promoted[b['path']] = b
             self.types.update({k: v for k, v in d['types'].items() if v is not None})
             for i in d['impls']:
                 i['crate'] = name
